@@ -110,6 +110,15 @@ pub(crate) fn validate(input: &DataType) -> Result<()> {
         },
     }
 
+    // What expansion cannot render is only looked at for an input that is otherwise well-formed
+    if let (DataType::Enum(e), true) = (input, errors.is_empty()) {
+        validate_enum_trait_attrs(&data_type_attrs_by_kind, &mut errors);
+
+        for v in &e.variants {
+            validate_variant_instrs(v, &data_type_attrs_by_kind, &mut errors);
+        }
+    }
+
     if errors.is_empty() {
         Ok(())
     } else {
@@ -359,6 +368,43 @@ fn validate_fields(input: &Struct, data_type_attrs: &DataTypeAttrs, data_type_at
                     }
                 }
             }
+        }
+    }
+}
+
+fn validate_enum_trait_attrs(data_type_attrs_by_kind: &[(&TraitAttrCore, Kind, bool)], errors: &mut HashMap<String, Span>) {
+    for (data_type_attr, kind, fallible) in data_type_attrs_by_kind {
+        if kind.is_into_existing() && data_type_attr.quick_return.is_none() {
+            errors.insert(format!("Trait instruction #[{}({}...)] is not supported for enums.", FallibleKind(*kind, *fallible), data_type_attr.ty.path_str), data_type_attr.ty.span);
+        }
+    }
+}
+
+fn validate_variant_instrs(input: &Variant, data_type_attrs_by_kind: &[(&TraitAttrCore, Kind, bool)], errors: &mut HashMap<String, Span>) {
+    for (data_type_attr, kind, fallible) in data_type_attrs_by_kind {
+        if kind.is_into_existing() || data_type_attr.quick_return.is_some() {
+            continue;
+        }
+
+        let ghost = input.attrs.ghost(&data_type_attr.ty, kind);
+        if ghost.is_some() && (kind.is_from() || ghost.is_some_and(|x| x.action.is_none())) {
+            continue;
+        }
+
+        let has_attr = input.attrs.applicable_attr(kind, *fallible, &data_type_attr.ty).is_some();
+        let has_lit = input.attrs.lit(&data_type_attr.ty).is_some();
+        let has_pat = input.attrs.pat(&data_type_attr.ty).is_some();
+
+        let supported = match (has_attr, has_lit, has_pat) {
+            (_, false, false) => true,
+            (false, true, false) => true,
+            (false, false, true) => kind.is_from(),
+            (true, false, true) => !kind.is_from(),
+            _ => false,
+        };
+
+        if !supported {
+            errors.insert(format!("Variant {} has a combination of #[literal(...)], #[pattern(...)] and member trait instructions that is not supported for #[{}({}...)] trait instruction", input.ident, FallibleKind(*kind, *fallible), data_type_attr.ty.path_str), input.ident.span());
         }
     }
 }
